@@ -213,6 +213,22 @@ func c06InitialPacket(c *core.Ctx) {
 				if g.CanFollow(a.Loc, cl.Loc) {
 					ok = true
 				}
+				// the asserted type admits every buffer kind of the repository (text and binary alike)
+				if at := info.TypeOf(ta.Type); at != nil {
+					missing := []string{}
+					for _, impl := range bufferImpls(c) {
+						if it, isI := at.Underlying().(*types.Interface); isI {
+							if !types.Implements(impl, it) {
+								missing = append(missing, impl.String())
+							}
+						} else if !types.Identical(at, impl) || len(bufferImpls(c)) > 1 {
+							if !types.Identical(at, impl) {
+								missing = append(missing, impl.String())
+							}
+						}
+					}
+					c.Check(R, sockOnOpen+"/clone-covers-every-buffer-kind", ta.Pos(), len(missing) == 0 && len(bufferImpls(c)) >= 2, keyf("the clone edge is taken for every types.BufferInterface implementation; not covered: %v", missing))
+				}
 			}
 			// the variable itself comes from Opts().InitialPacket()
 		}
@@ -556,4 +572,41 @@ func opsBase(e ast.Expr) ast.Expr {
 		return e
 	}
 	return se.X
+}
+
+// bufferImpls: pointer types implementing types.BufferInterface, taken from
+// the package that declares the interface (the repository's types package
+// aliases the parser's buffer types).
+func bufferImpls(c *core.Ctx) []types.Type {
+	var out []types.Type
+	pk := c.P.Pkgs["types"]
+	if pk == nil || pk.Types == nil {
+		return nil
+	}
+	bi, _ := pk.Types.Scope().Lookup("BufferInterface").(*types.TypeName)
+	if bi == nil {
+		return nil
+	}
+	it, ok := bi.Type().Underlying().(*types.Interface)
+	if !ok {
+		return nil
+	}
+	home := pk.Types
+	if nm, ok := types.Unalias(bi.Type()).(*types.Named); ok && nm.Obj().Pkg() != nil {
+		home = nm.Obj().Pkg()
+	}
+	for _, n := range home.Scope().Names() {
+		tn, ok := home.Scope().Lookup(n).(*types.TypeName)
+		if !ok || tn.IsAlias() {
+			continue
+		}
+		if _, isI := tn.Type().Underlying().(*types.Interface); isI {
+			continue
+		}
+		pt := types.NewPointer(tn.Type())
+		if types.Implements(pt, it) {
+			out = append(out, pt)
+		}
+	}
+	return out
 }
